@@ -105,7 +105,8 @@ def shard(idx, n, seed, tier, params):
             expected = want["format"]["main.asm"]
             kinds = [("formatting", text)]
             if i % 4 == 0:
-                kinds.append(("already-formatted", expected))
+                # (also with blank lines / blanks behind the last line, which the formatter removes)
+                kinds.append(("already-formatted", expected + (rng.choice(["\n\n", "\n   \n", "  ", "\n\t\n\n", "\n\n\n   "]) if i % 8 == 0 else "")))
             if i % 5 == 0:
                 kinds.append(("on-type", text))
             if i % 6 == 0:
